@@ -295,7 +295,11 @@ func (h *connIDManager) GetConnIDForPath(id pathID) (protocol.ConnectionID, bool
 }
 
 func (h *connIDManager) RetireConnIDForPath(pathID pathID) {
-	h.assertNotClosed()
+	// The application may abandon a path (Path.Close) after the connection was closed.
+	// There's nothing left to retire then.
+	if h.closed {
+		return
+	}
 	// if we're using zero-length connection IDs, we don't need to change the connection ID
 	if h.activeConnectionID.Len() == 0 {
 		return
